@@ -172,6 +172,35 @@ def run_blocks(ctx, chk):
             rng.getrandbits(32).to_bytes(4, 'little')
         blocks.append(('synthetic%d' % k, hdr + txgen.cs(len(txs)) + b''.join(txgen.ser_tx(t) for t in txs)))
 
+    # the dictionary reader copies the script bytes: it must give the consensus ids also for transactions in the region of the listed
+    # finding F02 (a script that is the single byte 00), which the object reader re-serialises differently
+    for k in range(6 if T else 3):
+        txs = []
+        for j in range(rng.randrange(2, 6)):
+            tx = txgen.rand_tx_clean(rng, standard_only=False)
+            if rng.random() < 0.6:
+                which = rng.choice(['in', 'out', 'both'])
+                if which in ('in', 'both') and tx['wit'] is None:
+                    tx['ins'][0] = (tx['ins'][0][0], tx['ins'][0][1], b'\x00', tx['ins'][0][3])
+                if which in ('out', 'both'):
+                    tx['outs'][0] = (tx['outs'][0][0], b'\x00')
+            txs.append(tx)
+        hdr = (1).to_bytes(4, 'little') + txgen.rbytes(rng, 64) + rng.getrandbits(32).to_bytes(4, 'little') + (0x1d00ffff).to_bytes(4, 'little') + rng.getrandbits(32).to_bytes(4, 'little')
+        raw = hdr + txgen.cs(len(txs)) + b''.join(txgen.ser_tx(t) for t in txs)
+        want = [txgen.sha256d(txgen.ser_tx(t, with_witness=False))[::-1].hex() for t in txs]
+        try:
+            b2 = Block.parse_bytes(raw)
+            got = [(d['txid'].hex() if isinstance(d['txid'], bytes) else d['txid']) for d in b2.parse_transactions_dict()]
+        except Exception as e:
+            got = 'raise:%s' % type(e).__name__
+        spec_ids = run_driver(['block_parse ' + raw.hex()])[0].split(' | ')[0].split(' txids=')[1].split(' ')[0].split(',')
+        ctx.evals += 1
+        ctx.count('block:dict-reader-with-00-scripts')
+        if got != want or spec_ids != want:
+            ctx.violation('the dictionary block reader reports transaction ids that are not the double-SHA256 of the stripped bytes',
+                          {'op': 'block_parse <dict reader, %d bytes>' % len(raw), 'rawhex_prefix': raw[:300].hex(), 'observed': got, 'expected': want,
+                           'lean_parser': spec_ids})
+
     for name, raw in blocks:
         txs_py = []
         try:
